@@ -695,3 +695,481 @@ func genC11uci(rng *hx.Rng, n int, tier string, emit func(hx.Input)) {
 		})
 	}
 }
+
+// ---------------------------------------------------------------------------------------------
+// c11seq: sequences of 3..5 position commands on ONE driver
+//
+//	n (commands separated by 257, tokens separated by 256)
+//	-> board-out(fresh driver) then per command:
+//	   code board-out(after the command in the sequence) fcode board-out(same command alone on a fresh driver)
+//
+// The driver is re-run on every prefix of the script (a deterministic function of the script), so
+// that the error line and the board can be attributed to each command.
+func init() {
+	hx.Register(&hx.Stream{Name: "c11seq", Gen: genC11seq, Run: runC11seq})
+}
+
+func uciSeqErrClass(line string) int {
+	switch {
+	case strings.HasPrefix(line, "invalid uci move"), strings.HasPrefix(line, "uci move not pseudo-legal"):
+		return 4
+	}
+	return uciErrClass(line)
+}
+
+func runC11seq(a hx.Args) string {
+	n := a.Int(0)
+	cmds := splitTokens(a, 1, 1+n)
+	// a panic inside the driver's goroutine cannot be recovered here: probe the parser first
+	for _, c := range cmds {
+		if len(c) >= 7 && c[0] == "fen" {
+			_, _ = board.FromFEN(strings.Join(c[1:7], " "))
+		}
+	}
+	_, _, b0 := runDriver("")
+	out := (&hx.Nums{}).BoardOut(b0)
+	script := ""
+	prevErrs := 0
+	for _, c := range cmds {
+		line := "position " + strings.Join(c, " ") + "\n"
+		script += line
+		_, errs, b := runDriver(script)
+		code := 0
+		if len(errs) > prevErrs {
+			code = uciSeqErrClass(errs[prevErrs])
+		}
+		prevErrs = len(errs)
+		_, ferrs, fb := runDriver(line)
+		fcode := 0
+		if len(ferrs) > 0 {
+			fcode = uciSeqErrClass(ferrs[0])
+		}
+		out.Int(code).BoardOut(b).Int(fcode).BoardOut(fb)
+	}
+	return out.String()
+}
+
+// seqCmd is one position command of a sequence together with what the generator knows about it.
+type seqCmd struct {
+	toks []string
+	kind string
+}
+
+// legalLine plays k random legal moves from a copy of b and returns their UCI strings.
+func legalLine(rng *hx.Rng, b *board.Board, k int) []string {
+	c := board.VerifRestore(b.VerifSnapshot())
+	var out []string
+	for i := 0; i < k; i++ {
+		ms := posgen.Legal(c)
+		if len(ms) == 0 {
+			break
+		}
+		m := ms[rng.Intn(len(ms))]
+		out = append(out, m.String())
+		c.MakeMove(m)
+	}
+	return out
+}
+
+// playLine applies UCI strings that are legal moves of b (as produced by legalLine) to a copy of b.
+func playLine(b *board.Board, line []string) *board.Board {
+	c := board.VerifRestore(b.VerifSnapshot())
+	for _, s := range line {
+		found := false
+		for _, m := range posgen.Legal(c) {
+			if m.String() == s {
+				c.MakeMove(m)
+				found = true
+				break
+			}
+		}
+		if !found {
+			break
+		}
+	}
+	return c
+}
+
+// rejectedVariant turns the six fields of a valid FEN into a FEN the parser rejects.
+func rejectedVariant(rng *hx.Rng, fields []string) ([]string, string) {
+	f := append([]string{}, fields...)
+	switch rng.Intn(8) {
+	case 0, 1:
+		f[4] = strconv.Itoa(101 + rng.Intn(50))
+		return f, "clock>100"
+	case 2:
+		f[5] = "0"
+		return f, "fullmove-0"
+	case 3:
+		f[1] = "x"
+		return f, "bad-stm"
+	case 4:
+		f[0] += "/8"
+		return f, "nine-ranks"
+	case 5:
+		f[2] = "KQxq"
+		return f, "bad-castling"
+	case 6:
+		f[3] = "i3"
+		return f, "bad-ep"
+	default:
+		f[0] = strings.Replace(f[0], "/", "/9", 1)
+		return f, "bad-rank"
+	}
+}
+
+func seqInput(cmds []seqCmd, tags []string, nontrivial bool) (hx.Input, bool) {
+	body := &hx.Nums{}
+	k := 0
+	var desc []string
+	for i, c := range cmds {
+		if i > 0 {
+			body.Int(257)
+			k++
+		}
+		k += encodeCmd(body, c.toks)
+		desc = append(desc, fmt.Sprintf("position %s", strings.Join(c.toks, " ")))
+		got := strings.Fields(strings.Join(c.toks, " "))
+		if len(got) != len(c.toks) {
+			return hx.Input{}, false
+		}
+		for j := range got {
+			if got[j] != c.toks[j] || strings.ContainsAny(got[j], "\n\r") {
+				return hx.Input{}, false
+			}
+		}
+	}
+	s := (&hx.Nums{}).Int(k).String()
+	if body.String() != "" {
+		s += " " + body.String()
+	}
+	return hx.Input{In: s, Desc: strings.Join(desc, " ; "), Tags: tags, NonTrivial: nontrivial}, true
+}
+
+func genC11seq(rng *hx.Rng, n int, tier string, emit func(hx.Input)) {
+	cnt := 0
+	withMoves := func(root []string, moves []string) []string {
+		t := append([]string{}, root...)
+		if len(moves) > 0 {
+			t = append(append(t, "moves"), moves...)
+		}
+		return t
+	}
+	fenRoot := func(fen string) []string { return append([]string{"fen"}, strings.Fields(fen)...) }
+	put := func(cmds []seqCmd, extra ...string) {
+		tags := append([]string{}, extra...)
+		repeatRejected := false
+		for i, c := range cmds {
+			tags = append(tags, c.kind)
+			if i > 0 && strings.HasPrefix(c.kind, "repeat-rejected") {
+				repeatRejected = true
+			}
+		}
+		if in, ok := seqInput(cmds, tags, repeatRejected); ok {
+			emit(in)
+			cnt++
+		}
+	}
+	start, _ := board.FromFEN(StartPosFEN)
+	// deliberate part: X installed, BAD, BAD + m1, BAD + m1 m2 with m1, m2 legal in X
+	xs := []string{StartPosFEN, "4k3/8/8/8/8/8/8/4K3 w - - 0 1",
+		"r3k2r/p1ppqpb1/bn2pnp1/3PN3/1p2P3/2N2Q1p/PPPBBPPP/R3K2R w KQkq - 0 1"}
+	bads := []string{"rnbqkbnr/pppppppp/8/8/8/8/PPPPPPPP/RNBQKBNR w KQkq - 101 60", gateRejected[0], gateRejected[5],
+		"8/8/8/8/8/8/8/8/8 w - - 0 1", "4k3/8/8/8/8/8/8/4K3 x - - 0 1", "4k3/8/8/8/8/8/8/4K3 w - - 0 0"}
+	for _, x := range xs {
+		xb, err := board.FromFEN(x)
+		if err != nil {
+			continue
+		}
+		for _, bad := range bads {
+			line := legalLine(rng, xb, 3)
+			cmds := []seqCmd{{fenRoot(x), "accepted-fen"}, {fenRoot(bad), "rejected"}}
+			for k := 1; k <= len(line) && k <= 3; k++ {
+				cmds = append(cmds, seqCmd{withMoves(fenRoot(bad), line[:k]), "repeat-rejected-extended"})
+			}
+			put(cmds, "deliberate")
+			// the same after startpos with moves, first rejected command already carries a move
+			l2 := legalLine(rng, start, 2)
+			cur := playLine(start, l2)
+			ext := legalLine(rng, cur, 2)
+			if len(ext) == 2 {
+				put([]seqCmd{{withMoves([]string{"startpos"}, l2), "startpos-moves"},
+					{withMoves(fenRoot(bad), ext[:1]), "rejected-moves"},
+					{withMoves(fenRoot(bad), ext), "repeat-rejected-extended"},
+					{withMoves(fenRoot(x), nil), "accepted-fen"}}, "deliberate")
+			}
+		}
+	}
+	for cnt < n {
+		posgen.Stream(rng, 40, func(p posgen.Pos) {
+			if cnt >= n || p.B.FiftyCnt > 100 {
+				return
+			}
+			// generator-side view of the driver: current board, and the last `position fen` command
+			cur := start
+			var lastRoot []string // "fen" + six fields of the last position fen command
+			var lastMoves []string
+			lastRejected := false
+			var lastBase *board.Board // root board of the last accepted fen command
+			length := 3 + rng.Intn(3)
+			var cmds []seqCmd
+			newValid := func() (string, *board.Board) {
+				if rng.Chance(0.6) {
+					return p.B.FEN(), board.VerifRestore(p.B.VerifSnapshot())
+				}
+				for try := 0; try < 20; try++ {
+					if q := posgen.Sparse(rng); q != nil {
+						return q.B.FEN(), q.B
+					}
+				}
+				return StartPosFEN, start
+			}
+			for len(cmds) < length {
+				x := rng.Intn(100)
+				switch {
+				case x < 22: // new accepted fen, half of them with moves
+					fen, b := newValid()
+					var line []string
+					if rng.Bool() {
+						line = legalLine(rng, b, 1+rng.Intn(3))
+					}
+					cmds = append(cmds, seqCmd{withMoves(fenRoot(fen), line), "accepted-fen"})
+					lastRoot, lastMoves, lastRejected, lastBase = fenRoot(fen), line, false, b
+					cur = playLine(b, line)
+				case x < 30: // startpos
+					var line []string
+					if rng.Bool() {
+						line = legalLine(rng, start, 1+rng.Intn(4))
+					}
+					cmds = append(cmds, seqCmd{withMoves([]string{"startpos"}, line), "startpos"})
+					cur = playLine(start, line)
+				case x < 45: // new FEN rejected by the parser, with or without moves (legal in the current position)
+					fen, _ := newValid()
+					f, why := rejectedVariant(rng, strings.Fields(fen))
+					var line []string
+					if rng.Bool() {
+						line = legalLine(rng, cur, 1+rng.Intn(2))
+					}
+					root := append([]string{"fen"}, f...)
+					cmds = append(cmds, seqCmd{withMoves(root, line), "rejected-parser:" + why})
+					lastRoot, lastMoves, lastRejected = root, line, true
+				case x < 55: // new FEN rejected by the gate
+					root := fenRoot(gateRejected[rng.Intn(len(gateRejected))])
+					var line []string
+					if rng.Bool() {
+						line = legalLine(rng, cur, 1+rng.Intn(2))
+					}
+					cmds = append(cmds, seqCmd{withMoves(root, line), "rejected-gate"})
+					lastRoot, lastMoves, lastRejected = root, line, true
+				case x < 85: // the previous FEN again with an extended move list
+					if lastRoot == nil {
+						continue
+					}
+					if lastRejected {
+						// extra moves legal in the position the driver holds now
+						ext := legalLine(rng, cur, 1+rng.Intn(2))
+						if len(ext) == 0 {
+							continue
+						}
+						line := append(append([]string{}, lastMoves...), ext...)
+						cmds = append(cmds, seqCmd{withMoves(lastRoot, line), "repeat-rejected-extended"})
+						lastMoves = line
+					} else {
+						// the game goes on: extra moves legal after the moves already played
+						ext := legalLine(rng, cur, 1+rng.Intn(2))
+						if len(ext) == 0 {
+							continue
+						}
+						line := append(append([]string{}, lastMoves...), ext...)
+						cmds = append(cmds, seqCmd{withMoves(lastRoot, line), "repeat-accepted-extended"})
+						lastMoves = line
+						cur = playLine(lastBase, line)
+					}
+				case x < 92: // the previous FEN again with an unrelated, shorter or identical list
+					if lastRoot == nil {
+						continue
+					}
+					base := cur
+					if !lastRejected {
+						base = lastBase
+					}
+					var line []string
+					switch rng.Intn(3) {
+					case 0:
+						line = legalLine(rng, base, rng.Intn(3))
+					case 1:
+						if len(lastMoves) > 0 {
+							line = lastMoves[:rng.Intn(len(lastMoves))]
+						}
+					default:
+						line = lastMoves
+					}
+					kind := "repeat-accepted-other-list"
+					if lastRejected {
+						kind = "repeat-rejected-other-list"
+					} else {
+						cur = playLine(lastBase, line)
+					}
+					cmds = append(cmds, seqCmd{withMoves(lastRoot, line), kind})
+					lastMoves = line
+				case x < 96: // a move list that stops at an illegal or malformed move
+					fen, b := newValid()
+					line := legalLine(rng, b, rng.Intn(3))
+					good := len(line)
+					line = append(line, []string{"e2e5", "a1a1", "zzzz", "e7e8k", "e2", "h9h8"}[rng.Intn(6)])
+					line = append(line, legalLine(rng, b, 1)...)
+					cmds = append(cmds, seqCmd{withMoves(fenRoot(fen), line), "accepted-fen-bad-move"})
+					lastRoot, lastMoves, lastRejected, lastBase = fenRoot(fen), line, false, b
+					cur = playLine(b, line[:good])
+					// the bad token may by chance be a legal move: resynchronise through the same reader
+					_ = cur
+				default: // no position command at all / too few arguments
+					cmds = append(cmds, []seqCmd{{[]string{}, "no-args"}, {[]string{"xyz", "1"}, "unknown"},
+						{[]string{"fen", "8/8/8/8/8/8/8/8", "w", "-", "-", "0"}, "fen-5-fields"},
+						{[]string{"startpos", "moves"}, "startpos-moves-empty"}}[rng.Intn(4)])
+				}
+			}
+			put(cmds)
+		})
+	}
+}
+
+// ---------------------------------------------------------------------------------------------
+// c11reuse: one Board value receives a sequence of texts
+//
+//	mode k (flag_i n_i bytes_i)*k -> per text: cls [board-out tlen text..] fcls [board-out]
+//
+// mode 0: board.ParseFEN(&b, text); 1: ParseFEN then b.ResetHash(); 2: epd.Parse(text+"; 1.0", &b, &res)
+// - always into the SAME b (the tuner reads a whole file into one Board). The second half of each
+// record is the same call on a fresh Board.
+func init() {
+	hx.Register(&hx.Stream{Name: "c11reuse", Gen: genC11reuse, Run: runC11reuse})
+}
+
+func reuseParse(mode int, b *board.Board, text []byte) int {
+	if mode == 2 {
+		var res float64
+		if err := epd.Parse(append(append([]byte{}, text...), []byte("; 1.0")...), b, &res); err != nil {
+			return 1
+		}
+		return 0
+	}
+	if err := board.ParseFEN(b, text); err != nil {
+		return fenErrClass(err)
+	}
+	if mode == 1 {
+		b.ResetHash()
+	}
+	return 0
+}
+
+func runC11reuse(a hx.Args) string {
+	mode, k := a.Int(0), a.Int(1)
+	out := &hx.Nums{}
+	var reused board.Board
+	i := 2
+	for j := 0; j < k; j++ {
+		n := a.Int(i + 1)
+		text := a.Bytes(i+2, i+2+n)
+		i += 2 + n
+		cls := reuseParse(mode, &reused, text)
+		out.Int(cls)
+		if cls == 0 {
+			t := reused.FEN()
+			out.BoardOut(&reused).Int(len(t)).Bytes([]byte(t))
+		}
+		var fresh board.Board
+		fcls := reuseParse(mode, &fresh, text)
+		out.Int(fcls)
+		if fcls == 0 {
+			out.BoardOut(&fresh)
+		}
+	}
+	return out.String()
+}
+
+type reuseItem struct {
+	text      []byte
+	canonical bool
+	kind      string
+}
+
+func genC11reuse(rng *hx.Rng, n int, tier string, emit func(hx.Input)) {
+	cnt := 0
+	put := func(mode int, items []reuseItem, extra ...string) {
+		in := (&hx.Nums{}).Int(mode, len(items))
+		tags := append([]string{fmt.Sprintf("mode%d", mode)}, extra...)
+		var desc []string
+		epThenNone := false
+		hadEp := false
+		for _, it := range items {
+			in.B(it.canonical).Int(len(it.text)).Bytes(it.text)
+			tags = append(tags, it.kind)
+			desc = append(desc, fmt.Sprintf("%q", it.text))
+			f := strings.Fields(string(it.text))
+			if len(f) == 6 && f[3] != "-" {
+				hadEp = true
+			} else if len(f) == 6 && hadEp {
+				epThenNone = true
+			}
+		}
+		if epThenNone {
+			tags = append(tags, "ep-then-none")
+		}
+		emit(hx.Input{In: in.String(), Desc: fmt.Sprintf("mode %d reuse one Board for %s", mode, strings.Join(desc, " then ")),
+			Tags: tags, NonTrivial: epThenNone})
+		cnt++
+	}
+	canon := func(f string) reuseItem { return reuseItem{[]byte(f), true, "canonical"} }
+	withEp := []string{"rnbqkbnr/ppp1pppp/8/8/3pP3/8/PPPP1PPP/RNBQKBNR b KQkq e3 0 3", "4k3/8/8/2pP4/8/8/8/4K3 w - c6 0 2",
+		"8/8/8/8/k2pP2R/8/8/4K3 b - e3 0 1", "2r3k1/1q1nbppp/r3p3/3pP3/pPpP4/P1Q2N2/2RN1PPP/2R4K b - b3 0 23"}
+	after := []string{StartPosFEN, "4k3/8/8/4P3/8/8/8/4K3 w - - 0 1", "8/8/8/8/8/8/8/8 w - - 0 1",
+		"4k3/8/8/8/3p4/8/8/4K3 b - - 57 99", "r3k2r/8/8/8/8/8/8/R3K2R w KQkq - 0 1"}
+	bad := []string{"", "4k3/8/8", "4k3/8/8/8/8/8/8/4K3 w - - 101 1", "4k3/8/8/8/8/8/8/4K3 w KQ", "4k3/8/8/8/8/8/8/4K3 b - e"}
+	for mode := 0; mode < 3; mode++ {
+		for _, e := range withEp {
+			for _, f := range after {
+				put(mode, []reuseItem{canon(e), canon(f)}, "deliberate")
+				put(mode, []reuseItem{canon(f), canon(e), {[]byte(bad[rng.Intn(len(bad))]), false, "failing"}, canon(f)}, "deliberate")
+			}
+		}
+	}
+	var epPool []string
+	for cnt < n {
+		posgen.Stream(rng, 40, func(p posgen.Pos) {
+			if cnt >= n {
+				return
+			}
+			if p.B.EnPassant != 0 && p.B.FiftyCnt <= 100 {
+				epPool = append(epPool, specFEN(p.B.VerifSnapshot()))
+				if len(epPool) > 64 {
+					epPool = epPool[1:]
+				}
+			}
+			k := 2 + rng.Intn(3)
+			var items []reuseItem
+			for len(items) < k {
+				switch x := rng.Intn(100); {
+				case x < 25 && len(epPool) > 0:
+					items = append(items, canon(epPool[rng.Intn(len(epPool))]))
+				case x < 45:
+					if p.B.FiftyCnt <= 100 {
+						items = append(items, canon(specFEN(p.B.VerifSnapshot())))
+					}
+				case x < 60:
+					if q := posgen.Sparse(rng); q != nil {
+						items = append(items, canon(specFEN(q.B.VerifSnapshot())))
+					}
+				case x < 70:
+					items = append(items, canon(after[rng.Intn(len(after))]))
+				case x < 85:
+					s, kind := mutateFEN(rng, p.B.FEN())
+					items = append(items, reuseItem{s, false, "mutated:" + kind})
+				default:
+					items = append(items, reuseItem{[]byte(bad[rng.Intn(len(bad))]), false, "failing"})
+				}
+			}
+			put(rng.Intn(3), items)
+		})
+	}
+}
